@@ -1,5 +1,7 @@
 (* C19 - Maps written to files, gob or Copy are read back equal.
-   Only statements here; proofs are in Proofs/C19P.v.
+   Only statements here; proofs are in Proofs/C19P.v and, for the last section (JSON files of
+   arbitrary Maps: the hypothesis Reads discharged against Model/Json.v's marshal / marshal_indent, and
+   the agreement of the two getJson models), in Proofs/C19Reads*.v.
 
    What is proved, and about what.  files.go, gob.go and Map.Copy are thin loops
    around (a) the per-Map encoders Xml/XmlIndent/Json/JsonIndent, (b) the
@@ -179,13 +181,24 @@ Theorem C19_field_docs_file_roundtrip : forall json_dec (kvs : list (list junit 
 Proof. exact field_docs_file_roundtrip. Qed.
 Print Assumptions C19_field_docs_file_roundtrip.
 
-(* NOT PROVED: that the real one-document readers satisfy Reads on every text the
-   real encoders write, i.e.
-     forall m rest, json_reader_raw json_dec (Json(m) ++ rest) = mkTaken (m, Json(m)) RNil rest
-   for Maps of any shape (proved above for one-field Maps with string values), the indented
-   texts, and the XML analogue.  It needs the
-   grammar of the emitted JSON / XML texts (properties C06, C13, C02); here it is a
-   hypothesis, evaluated on the implementation for every generated file ("hyp-reads"). *)
+(* Reads is PROVED below (section "JSON files of ARBITRARY Maps", end of this file) for the transcribed
+   NewMapJsonReaderRaw on the text Json() writes (compact) and on the text JsonIndent writes (indented, blank
+   prefix and indent) for ANY Map of JSON types, with blanks before it: C19_reader_reads_json_doc[_blanks],
+   C19_reader_reads_json_indent_doc; and the file theorems are instantiated with it (C19_json_file_roundtrip,
+   C19_json_write_read_roundtrip, C19_json_indent_write_read_roundtrip, C19_json_stream_file_roundtrip,
+   C19_json_file_truncation).  The one hypothesis left there is about encoding/json alone: the decoder
+   returns an object for the COMPACT text of the Map (json_dec (marshal eh (VMap m)) = Ok (VMap d)) - the text
+   getJson hands NewMapJson also when the file holds the indented text.
+
+   NOT PROVED:
+   - Reads for the XML readers on the texts Xml / XmlIndent write (it needs the grammar of the emitted XML and
+     the behaviour of encoding/xml's Decoder on it: properties C02, C13); there Reads stays a hypothesis,
+     evaluated on the implementation for every generated file ("hyp-reads");
+   - the truncation theorem for files of INDENTED JSON texts (a cut between a document's closing brace and the
+     opening brace of the next one - inside the separating newline - is not an error, and a cut inside an indented
+     text is; the instance needs a `started` finer than `begun` and the analogue of C19_scan_json_cut);
+   - that a byte-level encoding/json decoder maps marshal eh (VMap m) back to the Map (Model/Json.v decodes at the
+     segment level: C06); json_dec stays a parameter. *)
 
 (* ---------------------------------------------------------------- gob *)
 
@@ -276,3 +289,239 @@ Example C19_trailing_backslash_file :
   FR false [(VMap [(s "json", VStr doc_trailing_bsl)], doc_trailing_bsl);
             (VMap [(s "json", VStr doc_plain)], doc_plain)] false.
 Proof. exact trailing_backslash_file. Qed.
+
+(* ================================================================ JSON files of ARBITRARY Maps: Reads discharged *)
+
+From Mxj Require Import Spec.JsonFilesSpec Proofs.C13Json Proofs.C19Reads Proofs.C19ReadsDoc Proofs.C19ReadsTrunc Proofs.C19ReadsIndent
+  Proofs.C19ReadsAgree Proofs.C19ReadsEx.
+
+(* ---------------------------------------------------------------- the two models of getJson agree *)
+
+(* Model/Files.v scan_json (over the unread bytes; the reader above) and Model/Reader.v get_json (the
+   machine jmachine driven over a reader schedule; property C13) transcribe the same Go loop.  On EVERY
+   byte string b, getJson of Reader.v run on the *os.File schedule of b (every byte with a nil error, then
+   (0, io.EOF)) returns the image jres of what scan_json returns, and leaves the schedule of exactly the
+   bytes scan_json leaves (Spec/JsonFilesSpec.v: jres maps SDoc/SEof to JOk/JErr EEOF and both SNoClose and
+   SStray to JErr EOther - Reader.v keeps the class of an error only; unread is the rest of SDoc/SStray and
+   nothing at end of input). *)
+Theorem C19_scan_models_agree : forall b,
+  Reader.get_json (file_schedule b) = Some (jres (scan_json b), file_schedule (unread (scan_json b))).
+Proof. exact scan_models_agree. Qed.
+Print Assumptions C19_scan_models_agree.
+
+(* ... and so on every legal schedule of b (short reads, (0, nil) reads, data together with io.EOF) *)
+Theorem C19_scan_models_agree_any_schedule : forall b sc, legal b sc ->
+  exists sc', Reader.get_json sc = Some (jres (scan_json b), sc') /\ legal (unread (scan_json b)) sc'.
+Proof. exact scan_models_agree_any_schedule. Qed.
+Print Assumptions C19_scan_models_agree_any_schedule.
+
+(* the same about the machine run directly over the bytes: same result, and what scan_json leaves unread
+   is the input minus the bytes the machine consumed *)
+Theorem C19_scan_json_direct : forall b, exists pre,
+  b = pre ++ unread (scan_json b) /\ direct jmachine jinit b = (jres (scan_json b), length pre).
+Proof. exact scan_json_suffix. Qed.
+Print Assumptions C19_scan_json_direct.
+
+(* ---------------------------------------------------------------- the scanner and the reader on the text of any Map *)
+
+(* blanks, the compact text encoding/json writes for ANY object of JSON types (Model/Json.v marshal, either
+   escapeHTML setting; scan_safe: values are strings, booleans, nil, float64 / json.Number texts, Maps and
+   lists of these, at any depth), then anything: scan_json returns the object's text and leaves exactly what
+   follows it *)
+Theorem C19_scan_json_marshal : forall eh m w rest, scan_safe (VMap m) = true -> blank w = true ->
+  scan_json (w ++ marshal eh (VMap m) ++ rest) = SDoc (marshal eh (VMap m)) rest.
+Proof. exact scan_json_marshal. Qed.
+Print Assumptions C19_scan_json_marshal.
+
+(* Reads, PROVED for the transcribed NewMapJsonReaderRaw on the text of any Map of JSON types, for every
+   decoder that decodes that text to an object (the one hypothesis left about encoding/json) *)
+Theorem C19_reader_reads_json_doc : forall json_dec eh m d,
+  scan_safe (VMap m) = true -> json_dec (marshal eh (VMap m)) = Ok (VMap d) ->
+  Reads (json_reader_raw json_dec) (marshal eh (VMap m)) (VMap d, marshal eh (VMap m)).
+Proof. exact reader_reads_json_doc. Qed.
+Print Assumptions C19_reader_reads_json_doc.
+
+(* ... with blanks in front of the document (a newline between documents); the raw value is the text alone *)
+Theorem C19_reader_reads_json_doc_blanks : forall json_dec eh m d w,
+  scan_safe (VMap m) = true -> blank w = true -> json_dec (marshal eh (VMap m)) = Ok (VMap d) ->
+  Reads (json_reader_raw json_dec) (w ++ marshal eh (VMap m)) (VMap d, marshal eh (VMap m)).
+Proof. exact reader_reads_json_doc_blanks. Qed.
+Print Assumptions C19_reader_reads_json_doc_blanks.
+
+(* ... and in terms of NewMapJson's own result v (an array is wrapped under the key "object") *)
+Theorem C19_reader_reads_json_text : forall json_dec eh m w v,
+  scan_safe (VMap m) = true -> blank w = true ->
+  Files.new_map_json json_dec (marshal eh (VMap m)) = Ok v ->
+  Reads (json_reader_raw json_dec) (w ++ marshal eh (VMap m)) (v, marshal eh (VMap m)).
+Proof. exact reader_reads_json_text. Qed.
+Print Assumptions C19_reader_reads_json_text.
+
+(* the statement with an arbitrary decoded value v in place of an object is false: a decoder that answers
+   null makes NewMapJson, hence the reader, report an error *)
+Theorem C19_reader_reads_any_value_refuted : exists json_dec eh m v,
+  scan_safe (VMap m) = true /\ json_dec (marshal eh (VMap m)) = Ok v /\
+  ~ Reads (json_reader_raw json_dec) (marshal eh (VMap m)) (v, marshal eh (VMap m)).
+Proof. exact reads_any_value_refuted. Qed.
+Print Assumptions C19_reader_reads_any_value_refuted.
+
+(* ---------------------------------------------------------------- files of arbitrary Maps *)
+
+(* a file that is the concatenation of the texts of ANY list of Maps of JSON types reads back - Raw reader
+   and plain reader - as the list of their decodings, in order, without an error; the raw values are the texts *)
+Theorem C19_json_file_roundtrip : forall json_dec eh (dec : entries -> entries) ms,
+  Forall (fun m => scan_safe (VMap m) = true /\ json_dec (marshal eh (VMap m)) = Ok (VMap (dec m))) ms ->
+  read_all (json_reader_raw json_dec) keep_raw (concat (map (fun m => marshal eh (VMap m)) ms)) =
+    FR false (map (fun m => (VMap (dec m), marshal eh (VMap m))) ms) false /\
+  read_all (rd_map (json_reader_raw json_dec)) map_not_nil (concat (map (fun m => marshal eh (VMap m)) ms)) =
+    FR false (map (fun m => VMap (dec m)) ms) false.
+Proof. exact json_file_roundtrip. Qed.
+Print Assumptions C19_json_file_roundtrip.
+
+(* JsonFile (the writer loop of files.go over Json()'s texts), then the two readers on the file it wrote *)
+Theorem C19_json_write_read_roundtrip : forall json_dec eh (dec : entries -> entries) ms,
+  Forall (fun m => scan_safe (VMap m) = true /\ json_dec (marshal eh (VMap m)) = Ok (VMap (dec m))) ms ->
+  exists file,
+    maps_file (fun m => Some (marshal eh (VMap m))) false ms true = (Some file, false) /\
+    read_all (json_reader_raw json_dec) keep_raw file = FR false (map (fun m => (VMap (dec m), marshal eh (VMap m))) ms) false /\
+    read_all (rd_map (json_reader_raw json_dec)) map_not_nil file = FR false (map (fun m => VMap (dec m)) ms) false.
+Proof. exact json_write_read_roundtrip. Qed.
+Print Assumptions C19_json_write_read_roundtrip.
+
+(* documents (blanks w, Map m written, Map d decoded) with arbitrary blanks before each and after the last -
+   one document per line, say *)
+Theorem C19_json_stream_file_roundtrip : forall json_dec eh (ds : list (str * entries * entries)) tail,
+  Forall (fun x => blank (fst (fst x)) = true /\ scan_safe (VMap (snd (fst x))) = true /\
+                   json_dec (marshal eh (VMap (snd (fst x)))) = Ok (VMap (snd x))) ds ->
+  blank tail = true ->
+  read_all (json_reader_raw json_dec) keep_raw
+    (concat (map (fun x => fst (fst x) ++ marshal eh (VMap (snd (fst x)))) ds) ++ tail) =
+  FR false (map (fun x => (VMap (snd x), marshal eh (VMap (snd (fst x))))) ds) false.
+Proof. exact json_stream_file_roundtrip. Qed.
+Print Assumptions C19_json_stream_file_roundtrip.
+
+(* ---------------------------------------------------------------- truncation, hypotheses discharged *)
+
+(* a strict non-empty prefix of a Map's text: getJson reaches the end of the input inside the object *)
+Theorem C19_scan_json_cut : forall eh m k, scan_safe (VMap m) = true ->
+  0 < k -> k < length (marshal eh (VMap m)) ->
+  exists b, scan_json (firstn k (marshal eh (VMap m))) = SNoClose b.
+Proof. exact scan_json_cut. Qed.
+Print Assumptions C19_scan_json_cut.
+
+(* the file JsonFile writes for ANY Maps of JSON types, cut after n bytes, any n: the Maps of the documents
+   that lie wholly before the cut, and an error exactly when the cut falls inside a document (begun: the
+   fragment after the last whole document is not empty) *)
+Theorem C19_json_file_truncation : forall json_dec eh (dec : entries -> entries) ms n,
+  Forall (fun m => scan_safe (VMap m) = true /\ json_dec (marshal eh (VMap m)) = Ok (VMap (dec m))) ms ->
+  read_all (json_reader_raw json_dec) keep_raw (firstn n (concat (map (fun m => marshal eh (VMap m)) ms))) =
+  FR false (firstn (fst (locate (map (fun m => marshal eh (VMap m)) ms) n)) (map (fun m => (VMap (dec m), marshal eh (VMap m))) ms))
+     (begun (firstn (snd (locate (map (fun m => marshal eh (VMap m)) ms) n))
+               (nth (fst (locate (map (fun m => marshal eh (VMap m)) ms) n)) (map (fun m => marshal eh (VMap m)) ms) []))).
+Proof. exact json_file_truncation. Qed.
+Print Assumptions C19_json_file_truncation.
+
+(* ---------------------------------------------------------------- indented texts (JsonIndent / JsonFileIndent) *)
+
+(* blanks, the text JsonIndent(prefix, indent) writes for ANY object of JSON types (Model/Json.v marshal_indent:
+   json.Indent of the compact text; prefix and indent blank), then anything: getJson drops the blanks outside
+   string literals, so scan_json returns the COMPACT text of the object - not the bytes in the file - and
+   leaves exactly what follows the object *)
+Theorem C19_scan_json_marshal_indent : forall eh p i m w rest,
+  blank p = true -> blank i = true -> scan_safe (VMap m) = true -> blank w = true ->
+  scan_json (w ++ marshal_indent eh p i (VMap m) ++ rest) = SDoc (marshal eh (VMap m)) rest.
+Proof. exact scan_json_marshal_indent. Qed.
+Print Assumptions C19_scan_json_marshal_indent.
+
+(* Reads for the indented text: the Map is what the compact text decodes to, the raw value is the compact text *)
+Theorem C19_reader_reads_json_indent_doc : forall json_dec eh p i m d w,
+  blank p = true -> blank i = true -> scan_safe (VMap m) = true -> blank w = true ->
+  json_dec (marshal eh (VMap m)) = Ok (VMap d) ->
+  Reads (json_reader_raw json_dec) (w ++ marshal_indent eh p i (VMap m)) (VMap d, marshal eh (VMap m)).
+Proof. exact reader_reads_json_indent_doc. Qed.
+Print Assumptions C19_reader_reads_json_indent_doc.
+
+(* JsonFileIndent (the indented texts, a newline before every document but the first), then the two readers on
+   the file it wrote: the same Maps as from the compact file, in order, no error *)
+Theorem C19_json_indent_write_read_roundtrip : forall json_dec eh p i (dec : entries -> entries) ms,
+  blank p = true -> blank i = true ->
+  Forall (fun m => scan_safe (VMap m) = true /\ json_dec (marshal eh (VMap m)) = Ok (VMap (dec m))) ms ->
+  exists file,
+    maps_file (fun m => Some (marshal_indent eh p i (VMap m))) true ms true = (Some file, false) /\
+    read_all (json_reader_raw json_dec) keep_raw file = FR false (map (fun m => (VMap (dec m), marshal eh (VMap m))) ms) false /\
+    read_all (rd_map (json_reader_raw json_dec)) map_not_nil file = FR false (map (fun m => VMap (dec m)) ms) false.
+Proof. exact json_indent_write_read_roundtrip. Qed.
+Print Assumptions C19_json_indent_write_read_roundtrip.
+
+(* ---------------------------------------------------------------- the two models of NewMapJsonReaderRaw agree *)
+
+(* getJson never returns an empty document with a nil error (the len( *jb ) == 0 test of the readers never fires
+   on a nil error) *)
+Theorem C19_scan_doc_nonempty : forall b jb r, scan_json b = SDoc jb r -> jb <> [].
+Proof. exact scan_doc_nonempty. Qed.
+Print Assumptions C19_scan_doc_nonempty.
+
+(* On the file holding b the reader of Model/Reader.v returns a result r, raw bytes and the rest of the file; the
+   reader of Model/Files.v returns the same raw bytes and rest, the Map of r and the class of r's error (err_class,
+   map_of: Spec/JsonFilesSpec.v) - provided the decoder never answers io.EOF for a text (encoding/json answers
+   io.EOF only when there is no value at all; getJson hands NewMapJson a text that starts with a brace) *)
+Theorem C19_reader_models_agree : forall json_dec b, (forall j, json_dec j <> Err EEOF) ->
+  exists r, Reader.new_map_json_reader_raw (Files.new_map_json json_dec) (file_schedule b) =
+              Some (r, snd (t_doc (json_reader_raw json_dec b)), file_schedule (t_rest (json_reader_raw json_dec b))) /\
+            t_err (json_reader_raw json_dec b) = err_class r /\
+            fst (t_doc (json_reader_raw json_dec b)) = map_of r.
+Proof. exact readers_agree. Qed.
+Print Assumptions C19_reader_models_agree.
+
+(* without the proviso the models differ: Files.v records an io.EOF from NewMapJson as "other error", Reader.v passes
+   it through (and its file loop would take it for the end of the file) *)
+Theorem C19_reader_models_agree_unconditional_refuted : exists json_dec b,
+  Reader.new_map_json_reader_raw (Files.new_map_json json_dec) (file_schedule b) = Some (Err EEOF, b, []) /\
+  t_err (json_reader_raw json_dec b) = ROther.
+Proof. exact readers_agree_needs_proviso. Qed.
+Print Assumptions C19_reader_models_agree_unconditional_refuted.
+
+(* ---------------------------------------------------------------- non-vacuity *)
+
+(* two nested Maps whose keys and values hold braces, quotes, blanks and backslashes (a value ending in a
+   backslash, a value of two backslashes, a lone opening brace inside a list, an empty Map, a json.Number):
+   their texts, the hypotheses of the theorems above, and the read-back computed through the model -
+   whole file, cut inside the second document, cut at the boundary *)
+Example C19_json_example_texts :
+  marshal false (VMap ex_m1) = s "{""a}{"":{""b\"""":""}{ \"" x\\"",""l"":[""{"",null,true,1.5,{}]},""z"":""\\\\""}" /\
+  marshal false (VMap ex_m2) = s "{""e"":{},""n"":-12e3,""q"":{""r"":{""s"":""tail\\""}}}".
+Proof. exact ex_texts. Qed.
+
+Example C19_json_hypotheses_satisfiable :
+  Forall (fun m => scan_safe (VMap m) = true /\ toy_dec (marshal false (VMap m)) = Ok (VMap (toy_of m))) [ex_m1; ex_m2].
+Proof. exact ex_json_ok. Qed.
+
+Example C19_json_read_back :
+  read_all (json_reader_raw toy_dec) keep_raw (ex_t1 ++ ex_t2) =
+    FR false [(VMap (toy_of ex_m1), ex_t1); (VMap (toy_of ex_m2), ex_t2)] false /\
+  read_all (rd_map (json_reader_raw toy_dec)) map_not_nil (ex_t1 ++ ex_t2) =
+    FR false [VMap (toy_of ex_m1); VMap (toy_of ex_m2)] false /\
+  read_all (json_reader_raw toy_dec) keep_raw (firstn (length ex_t1 + 7) (ex_t1 ++ ex_t2)) =
+    FR false [(VMap (toy_of ex_m1), ex_t1)] true /\
+  read_all (json_reader_raw toy_dec) keep_raw (firstn (length ex_t1) (ex_t1 ++ ex_t2)) =
+    FR false [(VMap (toy_of ex_m1), ex_t1)] false.
+Proof. exact ex_json_read_back. Qed.
+
+(* the two scanner models side by side on inputs that end in each of the four ways: a document then more,
+   blanks only, a cut inside a document, a closing brace that opens nothing *)
+Example C19_scan_models_side_by_side :
+  map scan_json ex_inputs = [SDoc ex_t1 (s " }"); SEof []; SNoClose (firstn 20 ex_t1); SStray [] (s " {""k"":1}")] /\
+  map (fun b => Reader.get_json (file_schedule b)) ex_inputs =
+    [Some (JOk ex_t1, file_schedule (s " }")); Some (JErr [] EEOF, []); Some (JErr (firstn 20 ex_t1) EOther, []);
+     Some (JErr [] EOther, file_schedule (s " {""k"":1}"))].
+Proof. exact ex_scanners. Qed.
+
+(* the file JsonFileIndent(prefix one blank, indent two blanks) writes for the two Maps, and its read-back: the
+   same Maps as from the compact file; the raw values are the compact texts ex_t1, ex_t2 *)
+Example C19_json_indent_read_back :
+  ex_i2 = s "{" ++ nl ++ s "   ""e"": {}," ++ nl ++ s "   ""n"": -12e3," ++ nl ++ s "   ""q"": {" ++ nl ++
+          s "     ""r"": {" ++ nl ++ s "       ""s"": ""tail\\""" ++ nl ++ s "     }" ++ nl ++ s "   }" ++ nl ++ s " }" /\
+  maps_file (fun m => Some (marshal_indent false (s " ") (s "  ") (VMap m))) true [ex_m1; ex_m2] true =
+    (Some (ex_i1 ++ nl ++ ex_i2), false) /\
+  read_all (json_reader_raw toy_dec) keep_raw (ex_i1 ++ nl ++ ex_i2) =
+    FR false [(VMap (toy_of ex_m1), ex_t1); (VMap (toy_of ex_m2), ex_t2)] false.
+Proof. exact ex_indent_read_back. Qed.
